@@ -561,7 +561,7 @@ def _c20_mpl(h):
         plt.close(fig)
 
 
-@bounded("C02.rc-after-transform", "C02", funcs=["shape.SimpleShape._contains_point", "jordancurve.JordanCurve.__float__", "jordancurve.IntegrateJordan.winding_number"], props=["C02", "C10"],
+@bounded("C02.rc-after-transform", "C02", funcs=["shape.SimpleShape._contains_point", "jordancurve.JordanCurve.__float__", "jordancurve.IntegrateJordan.winding_number"], props=["C02"],
          bound="grid-zoo shapes (all kinds) + two curved blobs: query, then one of 8 in-place transformations (incl. mirrors scale(-1,1), scale(2,-3), rotations, moves), query again; truth = region denoted by the *current* boundary (orientation read from the control points by the oracle)", timeout=600)
 def _c02_after(h):
     rnd = random.Random(_seed() * 19 + 4)
